@@ -1,11 +1,139 @@
 import SigModel.Driver.Loop
+import SigModel.Spec.Checksum
 
-/-! Driver for C02 — stub (no model yet). -/
+/-!
+Driver for C02.  Ops (tokens; byte strings as `x<hex>`, backends as `<id>:x<secret>`):
+
+* `cfg <compat | -> <b1,b2,… | ->`                                   backend table of the case
+* `sign <label> <id> <x random> <x body>`                             `CalculateBackendChecksum` under `id`'s secret → `sum x<hex>`; defines reference `label`
+* `req <label|-> <hdr> <x random> <x checksum> <x body> <bodyok> <ct> <len|-> <room> [u=…]`
+      one POST /api/v1/room/<room>; hdr = `-` | `?` | `b:<id>` → `<status> t<0|1> <events>`
+* `fn <x checksum> <x random> <x body> <x secret>`                    `ValidateBackendChecksumValue` → `0|1`
+* `out <kind> <id|->`                                                 one `PerformJSONRequest`; the implementation line carries what the fake
+      backend received: `out <x random> <x body> <x checksum>` | `none`
+-/
 namespace SigModel.Driver.C02
+open SigModel SigModel.Proto SigModel.Checksum
+
+def mac : Hmac.Mac := Hmac.hmacSha256
 
 structure St where
-  dummy : Unit := ()
+  cfg : Cfg := ⟨none, []⟩
+  judge : Judge := {}
 
-def step (st : St) (_op _impl : List String) : St × String × String := (st, "bad-op", "na")
+def xhex (b : Bytes) : String := "x" ++ Bytes.toHexString b
+
+def parseX (tok : String) : Option Bytes :=
+  if hasPrefix "x" tok then Bytes.ofHexString (dropS 1 tok) else none
+
+def parseBackend (tok : String) : Option Backend :=
+  match tok.splitOn ":" with
+  | [id, sec] => (parseX sec).map fun s => ⟨id, s⟩
+  | _ => none
+
+def parseBackends (tok : String) : Option (List Backend) :=
+  if tok == "-" then some [] else (tok.splitOn ",").mapM parseBackend
+
+def St.backend (st : St) (id : String) : Option Backend :=
+  match st.cfg.compat with
+  | some c => if c.id == id then some c else st.cfg.backends.find? (·.id == id)
+  | none => st.cfg.backends.find? (·.id == id)
+
+def parseHdr (st : St) (tok : String) : Option Hdr :=
+  if tok == "-" then some .absent
+  else if tok == "?" then some .unknown
+  else if hasPrefix "b:" tok then (st.backend (dropS 2 tok)).map .known
+  else none
+
+/-- The smallest id among the backends that share the secret of `b` (the order in which
+`GetBackends()` lists backends with equal secrets is that of a Go map). -/
+def St.canonId (st : St) (b : Backend) : String :=
+  let same := (st.cfg.backends.filter (·.secret == b.secret)).map (·.id)
+  same.foldl (fun a x => if x < a then x else a) b.id
+
+def showResp (st : St) (searched : Bool) (r : Resp) : String :=
+  let evs := if r.events.isEmpty then "-" else
+    ",".intercalate (r.events.map fun e =>
+      let id := if searched then
+          match st.cfg.backends.find? (·.id == e.backend) with
+          | some b => st.canonId b
+          | none => e.backend
+        else e.backend
+      "br:" ++ e.room ++ "@" ++ id)
+  s!"{r.status} t{if r.throttled then 1 else 0} {evs}"
+
+def parseEvents (tok : String) : List Event :=
+  if tok == "-" then [] else
+  (tok.splitOn ",").filterMap fun e =>
+    match (dropS 3 e).splitOn "@" with
+    | [room, b] => some ⟨room, b⟩
+    | _ => none
+
+def parseImplResp : List String → Option Resp
+  | [status, t, evs] => (toNat? status).map fun s => { status := s, throttled := t == "t1", events := parseEvents evs }
+  | _ => none
+
+def step (st : St) (op impl : List String) : St × String × String :=
+  let op := op.filter (fun t => !(hasPrefix "#" t || hasPrefix "u=" t || hasPrefix "wr=" t || hasPrefix "wc=" t || hasPrefix "ct=" t))
+  match op with
+  | ["cfg", c, bs] =>
+    match (if c == "-" then some none else (parseBackend c).map some), parseBackends bs with
+    | some c, some bs => ({ st with cfg := ⟨c, bs⟩ }, "-", "na")
+    | _, _ => (st, "bad-op", "na")
+  | ["sign", label, id, rnd, body] =>
+    match st.backend id, parseX rnd, parseX body with
+    | some b, some rnd, some body =>
+      let sum := checksumOf mac rnd body b.secret
+      let j := match impl with
+        | ["sum", s] =>
+          match parseX s with
+          | some s => { st.judge with refs := ⟨label, rnd, body, s, b.secret⟩ :: st.judge.refs }
+          | none => st.judge
+        | _ => st.judge
+      ({ st with judge := j }, "sum " ++ xhex sum, "na")
+    | _, _, _ => (st, "bad-op", "na")
+  | ["fn", sum, rnd, body, secret] =>
+    match parseX sum, parseX rnd, parseX body, parseX secret with
+    | some sum, some rnd, some body, some secret =>
+      let m := validate mac sum rnd body secret
+      let spec := stmtChecksum mac secret rnd body == sum
+      let v := match impl with
+        | [i] => if (i == "1") == spec then "ok" else "violated:function-level-validation-differs-from-statement"
+        | _ => "na"
+      (st, if m then "1" else "0", v)
+    | _, _, _, _ => (st, "bad-op", "na")
+  | ["req", label, hdr, rnd, sum, body, bodyok, ct, len, room] =>
+    match parseHdr st hdr, parseX rnd, parseX sum, parseX body with
+    | some hdr, some rnd, some sum, some body =>
+      let clen := if len == "-" then none else toNat? len
+      let r : Req := ⟨hdr, rnd, sum, body⟩
+      let h : Http := ⟨room, clen, ct == "1", r, bodyok == "1"⟩
+      let resp := handle mac st.cfg h
+      let searched := hdr == .absent && st.cfg.compat.isNone
+      let wellFormed := ct == "1" && (match clen with | some n => n ≤ Generated.Checksum.maxBodySize | none => false)
+      let v := match parseImplResp impl with
+        | some i =>
+          let ref := st.judge.refs.find? (·.label == label)
+          if label != "-" && ref.isNone then "na"
+          else Judge.observeReq mac st.cfg ref wellFormed r i
+        | none => "na"
+      (st, showResp st searched resp, v)
+    | _, _, _, _ => (st, "bad-op", "na")
+  | ["out", _kind, id] =>
+    let target := if id == "-" then none else st.backend id
+    match impl with
+    | ["out", rnd, body, sum] =>
+      match parseX rnd, parseX body, parseX sum with
+      | some rnd, some body, some sum =>
+        -- the model cannot know the random: it recomputes the checksum for the random and body that were sent
+        let m := match target with
+          | some b => "out " ++ xhex rnd ++ " " ++ xhex body ++ " " ++ xhex (checksumOf mac rnd body b.secret)
+          | none => "none"
+        let (j, v) := st.judge.observeOut mac target rnd body sum
+        ({ st with judge := j }, m, v)
+      | _, _, _ => (st, "bad-impl", "na")
+    | ["none"] => (st, if target.isNone then "none" else "out", if target.isNone then "ok" else "violated:no-request-sent")
+    | _ => (st, if target.isNone then "none" else "out", "na")
+  | _ => (st, "bad-op", "na")
 
 end SigModel.Driver.C02
